@@ -342,6 +342,32 @@ fn step(w: &mut World, op: &R1Op, pre: Option<&Resolved>, remap: &BTreeMap<Id, I
                 Some(Err(_)) | None => failed = true,
             }
         }
+        R1Op::AllocUnchecked { offer } => {
+            let (x, y) = offer_coords(offer);
+            let valid = offer_is_valid(offer);
+            let p = Element::verif_from_affine_unchecked(bridge::big_to_fq(&x), bridge::big_to_fq(&y));
+            let r = guard(w, name, true, || {
+                <ElementVar as CurveVar<Element, Fq>>::new_variable_omit_prime_order_check(
+                    cs.clone(),
+                    || Ok(p),
+                    AllocationMode::Witness,
+                )
+            });
+            match r {
+                Some(Ok(var)) => {
+                    // no validity is claimed for this variable; it only serves as an operand
+                    outs.push(w.push_e(EV {
+                        var,
+                        elem: if valid { Some(p) } else { None },
+                        enc: None,
+                        memo: Memo::Elt,
+                        cst: false,
+                        poisoned: !valid,
+                    }));
+                }
+                Some(Err(_)) | None => failed = true,
+            }
+        }
         R1Op::ZeroVar => {
             let var = <ElementVar as CurveVar<Element, Fq>>::zero();
             check_cost(w, name, "constant", before, Some((0, 0, 0)));
